@@ -146,6 +146,24 @@ class GenObj:
 # private fields (caches ...).  For registered classes the concrete twin of a view is obtained by running the
 # class's REAL constructor on the view, so that harmless representation changes do not disturb the proofs while
 # a method that leaves such a field inconsistent with the view is still caught.
+class AbstractValue:
+    """a value known to the proof only through an (assumed) contract of its operations - e.g. a Python list seen
+    through one tracked element.  The interpreter routes attribute access, membership, truth, list() and formatting
+    of such a value to these methods."""
+
+    def py_getattr(self, interp, name):
+        raise Unsupported("%s.%s" % (type(self).__name__, name))
+
+    def py_contains(self, interp, item):
+        raise Unsupported("membership in %s" % type(self).__name__)
+
+    def py_truth(self, interp):
+        raise Unsupported("truth value of %s" % type(self).__name__)
+
+    def py_list(self, interp):
+        raise Unsupported("list() of %s" % type(self).__name__)
+
+
 INIT_BUILT = {}     # class -> (args, kwargs) of its real constructor
 
 
